@@ -88,12 +88,12 @@ def deltas_dtype(ctx, R="R-C15-dtype"):
     for r in rets:
         tags = dt.of(r.value)
         ctx.check(tags == {"in:" + feats}, R, f, r, "the result has the input's dtype on this return",
-                  "the result's dtype is %s, not the input's" % sorted(tags))
+                  "the result's dtype is %s, not the input's" % sorted(tags), structural="unknown" in tags)
     corr = [c for c in astq.func_calls(f) if prog.qualify(f.module, c.func, f) == "numpy.correlate"]
     ctx.need(len(corr) == 1, R, "np.correlate call not found in Deltas.apply")
     c = corr[0]
     ctx.check(dt.of(c.args[0]) == {"f64"}, R, f, c, "the correlation runs on a float64 copy of each slice",
-              "the correlated slice has dtype %s, not float64" % sorted(dt.of(c.args[0])))
+              "the correlated slice has dtype %s, not float64" % sorted(dt.of(c.args[0])), structural="unknown" in dt.of(c.args[0]))
     ok = len(c.args) == 3 and astq.const_str(c.args[2]) == "full"
     ctx.check(ok, R, f, c, "each slice is correlated in 'full' mode", "correlation call is %s" % astq.text(c)[:80])
     # the padded operand: np.pad(...) directly, or through a local / a slice of it
@@ -132,8 +132,14 @@ def deltas_dtype(ctx, R="R-C15-dtype"):
     pm = astq.parents(f)
     st = astq.enclosing_stmt(pm, c)
     ctx.need(isinstance(st, ast.Assign), R, "the correlation result is not stored by an assignment")
-    ctx.check(dt.of(st.value) == {"in:" + feats}, R, f, st, "each filtered slice is cast back to the input dtype",
-              "the filtered slice is stored with dtype %s" % sorted(dt.of(st.value)))
+    # (a float64 slice stored into an array of the input's dtype is cast by the store itself: what matters is the array's dtype)
+    stored_tags = dt.of(st.value)
+    tgt_arr = st.targets[0].value if isinstance(st.targets[0], ast.Subscript) else None
+    arr_tags = dt.of(tgt_arr) if tgt_arr is not None else set()
+    ok_store = stored_tags == {"in:" + feats} or arr_tags == {"in:" + feats}
+    ctx.check(ok_store, R, f, st, "each filtered slice ends up in the input dtype (cast back, or stored into an array of that dtype)",
+              "the filtered slice (dtype %s) is stored into an array of dtype %s" % (sorted(stored_tags), sorted(arr_tags)),
+              structural=("unknown" in stored_tags or "unknown" in arr_tags))
     # which filters: orders 1..num_deltas in order, order 0 is the input itself
     loops = [n for n in f.body_nodes() if isinstance(n, ast.For) and "self._filts[1:]" in astq.text(n.iter).replace(" ", "")]
     if len(loops) != 1:
